@@ -871,19 +871,6 @@ monitor_thread(int s, Op op, bool drainer = false)
                             "thread (map #%lld)",
                             s, (long long)it);
         }
-        if (rc != AcquireStatus_Ok && !mo.raced.empty() &&
-            mo.excused_failures < mo.raced.size()) {
-            // Known finding C06.monitor_raced_with_stop: a stop/abort that
-            // manipulated this reader while the client was using it can leave
-            // the bookmarks inconsistent; the channel notices at the next map
-            // (one failing call) and recovers.  One failure per such stop is
-            // attributed to that finding; a second one is a new violation
-            // (e.g. a status that never clears).
-            mo.excused_failures++;
-            probe("reach.transient_map_failure_after_raced_stop");
-            sleep_ns((uint64_t)std::max<int64_t>(1, poll) * 1000);
-            continue;
-        }
         if (rc != AcquireStatus_Ok)
             oracle_fail("C06.map_read_fails",
                         "acquire_map_read(stream %d) by a well-behaved client "
